@@ -52,6 +52,8 @@ var addrExec = map[string]h.ExecFn{
 		}
 		return "ok " + h.Hex(b)
 	},
+	"addr.root_parse":   exRootParse,
+	"go.addr.flags":     goAddrFlags,
 	"go.addr.roundtrip": goAddrRoundtrip,
 	"go.addr.subst":     goAddrSubst,
 	"go.addr.anycast":   goAddrAnycast,
@@ -246,6 +248,83 @@ func goAddrSubst(a []string) string {
 	})
 	if bad != "" {
 		return "FAIL corrupted-accepted " + bad + " (from " + s + ")"
+	}
+	return "ok"
+}
+
+// exRootParse: the root package parser tongo.ParseAddress (account.go) on strings that cannot reach the DNS resolver
+// (no "." in them): `ok wc addr bounce` | `err`; MustParseAddress must agree (panic exactly on error).
+func exRootParse(a []string) string {
+	s := strArg(a[0])
+	if strings.Contains(s, ".") {
+		return "bad-op"
+	}
+	ad, err := tongo.ParseAddress(s)
+	var mustPanicked bool
+	var ad2 ton.Address
+	func() {
+		defer func() {
+			if recover() != nil {
+				mustPanicked = true
+			}
+		}()
+		ad2 = tongo.MustParseAddress(s)
+	}()
+	if mustPanicked != (err != nil) {
+		return "FAIL must-parse-disagrees"
+	}
+	if err != nil {
+		return "err"
+	}
+	if ad2.ID != ad.ID || ad2.Bounce != ad.Bounce || ad.StateInit != nil {
+		return "FAIL must-parse-disagrees"
+	}
+	b := 0
+	if ad.Bounce {
+		b = 1
+	}
+	return fmt.Sprintf("ok %d %s %d", ad.ID.Workchain, hex.EncodeToString(ad.ID.Address[:]), b)
+}
+
+// goAddrFlags: the flags are part of what the friendly form means: through the root-package API the bounce flag
+// survives print -> parse for every flag combination and both alphabets (the testnet flag has no field in ton.Address);
+// the raw form parses as bounceable; the re-exported names are the ton functions.
+func goAddrFlags(a []string) string {
+	id := acctArg(a[0], a[1])
+	if id.Workchain < -128 || id.Workchain > 127 {
+		return "ok"
+	}
+	for _, bounce := range []bool{false, true} {
+		for _, testnet := range []bool{false, true} {
+			s := id.ToHuman(bounce, testnet)
+			for _, str := range []string{s, toStdAlphabet(s)} {
+				ad, err := tongo.ParseAddress(str)
+				if err != nil || ad.ID != id {
+					return "FAIL root-parse-id " + str
+				}
+				if ad.Bounce != bounce {
+					return fmt.Sprintf("FAIL bounce-flag-lost %s printed-bounce=%v parsed-bounce=%v testnet=%v", str, bounce, ad.Bounce, testnet)
+				}
+				m := tongo.MustParseAddress(str)
+				if m.ID != id || m.Bounce != bounce {
+					return "FAIL must-parse " + str
+				}
+				if x, err := tongo.ParseAccountID(str); err != nil || x != id || tongo.MustParseAccountID(str) != id {
+					return "FAIL reexport-parse " + str
+				}
+			}
+		}
+	}
+	ad, err := tongo.ParseAddress(id.ToRaw())
+	if err != nil || ad.ID != id || !ad.Bounce {
+		return "FAIL root-parse-raw " + id.ToRaw()
+	}
+	if n := tongo.NewAccountId(id.Workchain, id.Address); n == nil || *n != id {
+		return "FAIL reexport-new"
+	}
+	m := id.ToMsgAddress()
+	if x, err := tongo.AccountIDFromTlb(m); err != nil || x == nil || *x != id {
+		return "FAIL reexport-fromtlb"
 	}
 	return "ok"
 }
@@ -515,6 +594,12 @@ func genAcct(g *h.G, friendly bool) (int32, [32]byte) {
 
 func hs(s string) string { return h.Hex([]byte(s)) }
 
+func emitRootParse(g *h.G, s string) {
+	if !strings.Contains(s, ".") {
+		g.Emit("addr.root_parse", hs(s))
+	}
+}
+
 func mutateString(g *h.G, s string) string {
 	b := []byte(s)
 	switch g.Rng.Intn(12) {
@@ -620,6 +705,7 @@ func genC17Addr(g *h.G) {
 		g.Emit("addr.from_raw", hs(s))
 		g.Emit("addr.from_b64", hs(s))
 		g.Emit("addr.parse", hs(s))
+		emitRootParse(g, s)
 		g.Emit("addr.from_json", hs(`"`+s+`"`))
 		g.Count("malformed_fixed")
 	}
@@ -664,6 +750,7 @@ func genC17Addr(g *h.G) {
 		}
 		g.NonTrivial("acct/" + ws + "/" + as)
 		g.Emit("go.addr.roundtrip", ws, as)
+		g.Emit("go.addr.flags", ws, as)
 		g.Emit("addr.raw", ws, as)
 		g.Emit("addr.json", ws, as)
 		g.Emit("addr.tl", ws, as)
@@ -671,6 +758,7 @@ func genC17Addr(g *h.G) {
 		raw := id.ToRaw()
 		g.Emit("addr.from_raw", hs(raw))
 		g.Emit("addr.parse", hs(raw))
+		emitRootParse(g, raw)
 		g.Emit("addr.from_json", hs(`"`+raw+`"`))
 		tl, _ := id.MarshalTL()
 		g.Emit("addr.from_tl", h.Hex(append(tl, g.Bytes(g.Rng.Intn(3))...)))
@@ -697,6 +785,11 @@ func genC17Addr(g *h.G) {
 		}
 		g.Emit("addr.from_b64", hs(hstr))
 		g.Emit("addr.parse", hs(hstr))
+		emitRootParse(g, hstr)
+		if g.Rng.Intn(4) == 0 { // the root parser ignores the base64 error: trailing garbage after 48 valid characters
+			emitRootParse(g, hstr+[]string{"!", "A", "AA", "AAA", "=", "==", "\n", " ", "AAAA", "A===", "AA==x"}[g.Rng.Intn(11)])
+			g.Count("root_trailing_garbage")
+		}
 		g.Emit("addr.from_json", hs(`"`+hstr+`"`))
 		// TL-B bits: plain, with anycast, truncated
 		c := boc.NewCell()
@@ -746,6 +839,7 @@ func genC17Addr(g *h.G) {
 			g.Emit("addr.from_raw", hs(ms))
 			g.Emit("addr.from_b64", hs(ms))
 			g.Emit("addr.parse", hs(ms))
+			emitRootParse(g, ms)
 			g.Count("malformed_mutated")
 		}
 	}
